@@ -155,9 +155,14 @@ CHECKS = {
                  "string literals: for every valid literal, either allowTemplate, sloppy and strict mode, the written literal is valid for its delimiter and "
                  "has the same string value (string_literals_keep_their_value) - validating this statement exposed K122 (a NUL escape before a digit), K09 "
                  "(a substitution opened by a decoded escape) and K30 (decoded </script>), all repaired. Ties: 6,000 numeric and 20,000 string literals per "
-                 "run through hooks. PARTIAL: loops, declarations, hoisting, classes, renaming interplay, regular expressions, templates with substitutions "
+                 "run through hooks. BYTES: Js/PrintRender and Js/StmtRender restate the writer (write with needsSpace / spaceBefore, keywords, raw semicolons); for "
+                 "every expression with identifier atoms and for every function body meeting conditions on the INPUT list only, the written bytes lex "
+                 "back (longest match over the ECMA-262 punctuators) to exactly the printer's tokens: no two tokens fuse, no word joins a word "
+                 "(written_bytes_lex_back_to_the_tokens, rewriting_printer_bytes_lex_back, statement_printer_never_joins_words, "
+                 "function_body_bytes_lex_back_closed). Ties: bytes of the real js.Minify on every expression case (~12,000) and ~3,000 function bodies "
+                 "per run, the closed statement evaluated on each body. PARTIAL: loops, declarations, hoisting, classes, renaming interplay, regular expressions, templates with substitutions "
                  "are decided by search only: 1,500 generated programs per quick run executed in node 20 (vm) before and after minification under several "
-                 "configurations. Repaired in /repo from this work (fix: commits): K02, K03, K06, K08-K13, K37, K38, K74, K75, K77, K78, K114, K117, K119-K122, "
+                 "configurations. Repaired in /repo from this work (fix: commits): K02-K04, K06-K13, K37, K38, K74, K75, K77, K78, K114, K117, K119-K122, "
                  "K125, K126; open: K01, K04, K05, K07, K14, K73, K76, K118."),
         "note": ("Partial (printer precedence, expression rewrites, statement optimiser / printer and literals proved on the stated fragments; behaviour of "
                  "everything else searched). Trusted: Coq kernel, translator, extraction, driver, PrintSpec.v / StmtParse.v / StrLitSpec.v / NumLitSpec.v as "
@@ -317,7 +322,7 @@ CHECKS = {
         "technique": "Coq proof (induction over JSON values) on an extracted model of the separator state machine + correspondence on real parser events",
         "text": ("Theorems (Props/C07.v), for every JSON value of any depth: the model of json.Minify's loop renders exactly the compact form of the same "
                  "tree (nesting, member order, duplicate keys, byte-identical strings/literals; numbers through Number + zero repair), and with KeepNumbers "
-                 "every lexeme is byte-identical; 'never longer' is refuted with witness 7E-3 (known finding K48). Tie: the extracted model consumes the "
+                 "every lexeme is byte-identical; the output is never longer than the compact rendering with the original number lexemes (a theorem since the repair of K48; before, the model refuted it with witness 7E-3). Tie: the extracted model consumes the "
                  "event stream of the real parse/json parser for each generated document and must reproduce json.Minify's bytes; the spec's events_of is "
                  "compared with the real parser's events. Oracle: encoding/json token walk with math/big numbers."),
         "note": ("Trusted: Coq kernel, extraction, driver, JsonSpec.v as the meaning of 'same value', harness, encoding/json. The parse/json parser is run, "
